@@ -410,6 +410,22 @@ func Enumerate(c *Codec, thorough bool, emit func(Case)) {
 		}
 	}
 	for _, M := range large {
+		// aggregation ladder: n equal small units, n = 5..24 (many units in one packet: per-unit header
+		// arithmetic that only goes wrong from a certain count on)
+		if c.MaxUnits >= 2 {
+			for _, u := range ladderUnits(c) {
+				for n := 5; n <= 24; n++ {
+					if c.UnitCountLimit > 0 && n > c.UnitCountLimit {
+						break // more units than the decoder accepts per frame is not valid input
+					}
+					f := make([]int, n)
+					for i := range f {
+						f[i] = u
+					}
+					mk(M, [][]int{f}, 65530, 1, n*u)
+				}
+			}
+		}
 		th := c.thresholdSizes(M, 8)
 		for _, s := range th {
 			for _, q := range seqs {
@@ -447,6 +463,15 @@ func Enumerate(c *Codec, thorough bool, emit func(Case)) {
 			}
 		}
 	}
+}
+
+// ladderUnits are the unit sizes of the aggregation ladders: the smallest valid unit and the next one.
+func ladderUnits(c *Codec) []int {
+	if c.Sizes != nil {
+		return c.Sizes[:1]
+	}
+	step := max(c.UnitStep, 1)
+	return []int{c.MinUnit, c.MinUnit + step}
 }
 
 func thin(a []int, n int) []int {
